@@ -60,8 +60,42 @@ LOOPS = [
 ]
 
 
+NESTED = [
+    # name, params, outer header, inner header, item
+    ("nest_range_range", "a, b", "for i in range(a):", "for j in range(b):", "(i, j)"),
+    ("nest_range_typed", "a: cython.int, b: cython.int", "for i in range(a):", "for j in range(b):", "(i, j)"),
+    ("nest_list_str", "l: list, t: str", "for i in l:", "for j in t:", "(i, j)"),
+    ("nest_range_bytes", "a: cython.int, t: bytes", "for i in range(a):", "for j in t:", "(i, j)"),
+    ("nest_dict_range", "d: dict, b: cython.int", "for i in d:", "for j in range(b):", "(i, j)"),
+    ("nest_range_list", "a, l: list", "for i in range(a):", "for j in l:", "(i, j)"),
+]
+
+NESTED_BODY = '''
+    i = j = 'unset'
+    %(outer)s
+        %(inner)s
+            r = hook(%(site)d, %(item)s)
+            if r == 1: break
+            if r == 2: continue
+            hook(%(site2)d, %(item)s)
+        else:
+            r = hook(%(site)d, ('inner-else', i))
+            if r == 1: break
+            if r == 2: continue
+            hook(%(site2)d, ('after-else', i))
+        hook(%(site2)d, ('outer-tail', i))
+    else:
+        hook(%(site3)d, None)
+    return (i, j)
+'''
+
+
 def gen_source():
     out = ["import cython", "from loopseam import hook, rebind", ""]
+    for n, (name, params, outer, inner, item) in enumerate(NESTED):
+        out.append("def loop_%s(%s):" % (name, params))
+        out.append((NESTED_BODY % {"outer": outer, "inner": inner, "item": item, "site": 60 + n, "site2": 160 + n, "site3": 260 + n}).strip("\n"))
+        out.append("")
     for n, (name, params, header, item, unset) in enumerate(LOOPS):
         out.append("def loop_%s(%s):" % (name, params))
         if name == "range_ctarget":
@@ -88,7 +122,29 @@ LIST_MUT = ["insert", "burst", "del_first", "del_last", "replace_value", "clear"
 BA_MUT = ["insert", "del_last", "clear"]
 
 
+def gen_nested_case(rng):
+    ni = rng.randrange(len(NESTED))
+    name = NESTED[ni][0]
+    a, b = rng.choice([0, 1, 2, 3]), rng.choice([0, 1, 2, 3])
+    if name in ("nest_range_range", "nest_range_typed"):
+        arg = ["ints", [a, b]]
+    elif name == "nest_list_str":
+        arg = ["list+str", [list(range(10, 10 + a)), "xyz"[:b]]]
+    elif name == "nest_range_bytes":
+        arg = ["int+bytes", [a, "xyz"[:b]]]
+    elif name == "nest_dict_range":
+        arg = ["dict+int", [[[k * 3 + 1, k] for k in range(a)], b]]
+    else:
+        arg = ["int+list", [a, list(range(20, 20 + b))]]
+    script = {}
+    for _ in range(rng.choice([0, 1, 2, 3])):
+        script[str(rng.randrange(0, 10))] = [rng.choice(["break", "continue", "break", "continue", "raise"])]
+    return {"nested": ni, "arg": arg, "script": script}
+
+
 def gen_case(rng):
+    if rng.random() < 0.15:
+        return gen_nested_case(rng)
     li = rng.randrange(len(LOOPS))
     name = LOOPS[li][0]
     size = rng.choice([0, 1, 2, 3, 4, 5, 8])
@@ -162,7 +218,7 @@ def is_known_f10(case, rm, rs):
     """Known finding F10: a dict key is replaced during compiled iteration without changing the size (delete + insert);
     CPython raises RuntimeError('dictionary keys changed during iteration'), compiled code only compares sizes.
     Matched narrowly: dict loop, the script contains a same-size replacement, and CPython's outcome is exactly that error."""
-    if not LOOPS[case["loop"]][0].startswith("dict"):
+    if "nested" in case or not LOOPS[case["loop"]][0].startswith("dict"):
         return False
     if not any(v[0] in ("same_size", "del_and_reinsert") for v in case["script"].values()):
         return False
@@ -171,6 +227,14 @@ def is_known_f10(case, rm, rs):
 
 def make_arg(arg):
     k, v = arg
+    if k == "list+str":
+        return [list(v[0]), v[1]]
+    if k == "int+bytes":
+        return [v[0], v[1].encode()]
+    if k == "dict+int":
+        return [dict((a, b) for a, b in v[0]), v[1]]
+    if k == "int+list":
+        return [v[0], list(v[1])]
     if k == "dict":
         return [dict((a, b) for a, b in v)]
     if k == "set":
@@ -190,8 +254,12 @@ def make_arg(arg):
     return list(v)
 
 
+def case_name(case):
+    return NESTED[case["nested"]][0] if "nested" in case else LOOPS[case["loop"]][0]
+
+
 def run_case(mod, case, ls):
-    name = LOOPS[case["loop"]][0]
+    name = case_name(case)
     args = make_arg(case["arg"])
     ls.reset({int(k): v for k, v in case["script"].items()}, args[0] if case["arg"][0] not in ("ints",) else None)
     fn = getattr(mod, "loop_" + name)
@@ -254,6 +322,10 @@ def one_run(check, seed, i, cfg):
             res["probes"]["mutation_detected_runtimeerror"] = res["probes"].get("mutation_detected_runtimeerror", 0) + 1
         if any(e[0] == "site" and e[1] >= 200 for e in rm["log"]):
             res["probes"]["else_clause_ran"] = res["probes"].get("else_clause_ran", 0) + 1
+        if "nested" in case:
+            res["probes"]["nested_loop_cases"] = res["probes"].get("nested_loop_cases", 0) + 1
+            if any(e[0] == "visit" and isinstance(e[1], list) and e[1][:1] == ["inner-else"] for e in rm["log"]) and case["script"]:
+                res["nontrivial_digests"].append(core.digest([ms["cell"], case]))
         if any(e[0] == "mutate" for e in rm["log"]):
             res["nontrivial_digests"].append(core.digest([ms["cell"], case]))
         d = diff(rm, rs)
@@ -262,9 +334,9 @@ def one_run(check, seed, i, cfg):
             d = None
         if d is not None and "violation" not in res:
             res["violation"] = {"klass": "loop-differs-from-cpython:" + d["what"], "detail": d, "case": case, "cell": ms["cell"],
-                                "loop_name": LOOPS[case["loop"]][0]}
+                                "loop_name": case_name(case)}
         if i % 400 == 0 and j == 0:
-            res["sample"] = {"loop": LOOPS[case["loop"]][0], "case": case, "model": rm}
+            res["sample"] = {"loop": case_name(case), "case": case, "model": rm}
     return res
 
 
